@@ -1599,16 +1599,36 @@ fn drive_c17(sc: &E2Scenario, rep: &mut RunReport) {
                 let mut sorted = sin.clone();
                 sorted.sort();
                 let n = sorted.len();
-                let mut t2 = tree0.clone();
+                // half of the time the renaming happens in the directory that already holds the outputs
+                // of the first run (a history: generate, `git mv` the schema files, generate)
+                let over_outputs = Rng::new(sc.faults.sample_seed ^ 0x17e5).chance(1, 2);
+                let mut t2 = if over_outputs { gtree.clone() } else { tree0.clone() };
+                let mut before2 = tree0.clone();
+                let mut sc2 = sc.clone();
                 for (i, f) in sorted.iter().enumerate() {
                     let b = t2.remove(f).unwrap();
+                    before2.remove(f);
                     // first becomes last: prefixes that sort in reverse
                     let renamed = format!("{}/r{}-{}", indep::dirname(f), n - i, indep::basename(f));
-                    t2.insert(renamed, b);
+                    t2.insert(renamed.clone(), b.clone());
+                    before2.insert(renamed, b);
+                    if let Some(k) = sin.iter().position(|x| x == f) {
+                        let rel = &sc.project.schema_paths[k];
+                        sc2.project.schema_paths[k] = if rel.contains('/') { format!("{}/r{}-{}", indep::dirname(rel), n - i, indep::basename(rel)) } else { format!("r{}-{}", n - i, rel) };
+                    }
                 }
                 sandbox::reset_tree(&t2);
                 let (r5, after5) = rn.on_tree(cmds, "json", sc.hash_seeds[0], Some(sc.readdir_seeds[0]), &[]);
                 rep.probe("schema_files_loaded_in_reverse_order");
+                if over_outputs {
+                    rep.fault("inputs_renamed_between_runs");
+                }
+                // the maps must name the renamed inputs (C06 / C20), also when older maps were lying around
+                if !r5.trapped() && r5.exit == 0 {
+                    if let Ok(p5) = parse_output("json", &r5) {
+                        artifacts::check_artifacts(&sc2, &before2, &after5, &p5.listed, rep);
+                    }
+                }
                 if r5.trapped() {
                     rep.violate(&["C17", "C18", "C08"], &format!("trap@{}", r5.panic_site()), format!("schema files renamed: exit {} {}", r5.exit, tail(&r5.stderr_str())));
                 } else if r5.exit != g.exit {
